@@ -8,6 +8,7 @@ open Dashu.Props.C18
 #print axioms farey_neighbors_adjacent
 #print axioms farey_neighbors_consecutive
 #print axioms next_up_down_adjacent
+#print axioms next_up_down_limit_one_int
 #print axioms nearest_closer
 #print axioms pick_simplest_optimal
 #print axioms simplest_from_float_interval
@@ -15,3 +16,8 @@ open Dashu.Props.C18
 #print axioms fbig_rounding_set_exact
 #print axioms fbig_model_set_is_rounding_set
 #print axioms simplest_from_fbig_exact
+#print axioms simplest_from_fbig_none_iff_infinite
+#print axioms simplest_from_fbig_unlimited
+#print axioms simplest_from_fbig_entry
+#print axioms code_set_is_rounding_set_on_class
+#print axioms code_optimal_on_class
